@@ -170,6 +170,24 @@ func c13Check(c c13Case) *vResult {
 	}
 	res.NonTrivial = goErr == nil && mentions
 
+	// a decision taken for one client must not carry over to another: every
+	// other case first has a far more permissive client ask for the same URI
+	// (validator and authorization endpoint), then the client under test
+	wide := OpenIDConnectClientConfig{ClientID: "clientWide", ClientSecret: "secretW",
+		AllowedRedirectDomains: []string{"com", "test", "org", "net", "example", "localhost", "1", "io"}}
+	prior := vHash(c.URL)%2 == 0
+	if prior {
+		res.label("prior-permissive-client")
+		if okW, _, errW := wide.CanRedirectToURL(c.URL); errW == nil && okW {
+			res.label("prior-permissive-client:approved")
+		}
+		w.state.Config.OpenIDConnectIDP.Client = []OpenIDConnectClientConfig{wide, client}
+		qw := url.Values{"response_type": {"code"}, "scope": {"openid"}, "state": {"w"}, "nonce": {"n0nce-654321"}, "client_id": {"clientWide"}, "redirect_uri": {c.URL}}
+		rw := vNewRequest("GET", idpOpenIDCAuthorizationPath+"?"+qw.Encode(), nil)
+		w.applyCred(rw, vCred{Kind: "cookie", Bits: AuthTypePassword}, vUserAlice)
+		vServe(w.state.idpOpenIDCAuthorizationHandler, rw)
+	}
+
 	// (1) the validator
 	ok, _, err := client.CanRedirectToURL(c.URL)
 	if err == nil && ok {
@@ -181,6 +199,9 @@ func c13Check(c c13Case) *vResult {
 
 	// (2) the authorization endpoint
 	w.state.Config.OpenIDConnectIDP.Client = []OpenIDConnectClientConfig{client}
+	if prior {
+		w.state.Config.OpenIDConnectIDP.Client = []OpenIDConnectClientConfig{wide, client}
+	}
 	q := url.Values{}
 	q.Set("response_type", "code")
 	q.Set("scope", "openid")
